@@ -237,7 +237,7 @@ def cases(tier, seed):
             h, name = harness(t, Nn if not two else 2, two)
             nm = "tree %s%s" % (name, "|x,y" if two else "|x")
             cs.append(Case(nm + "|N=%d" % (Nn if not two else 2), h, key=nm, reset=eql_reset, core=True, timeout=300 if tier == "quick" else 1200,
-                           max_paths=50000 if tier == "quick" else 400000, validate=1))
+                           max_paths=50000 if tier == "quick" else 400000, validate=1, cex_grace=10**9))
     return cs
 
 
